@@ -15,6 +15,7 @@ Level: exploration (numeric closeness is applied by the judge; the calendar / tz
 """
 import json
 import os
+import re
 import shutil
 import time
 from concurrent.futures import ThreadPoolExecutor
@@ -27,6 +28,7 @@ HERE = os.path.dirname(os.path.abspath(__file__))
 PROPOSED = os.path.join(HERE, "c19_proposed_findings.json")
 NS = 10 ** 9
 SPD = 86400
+ZERO_LITERAL = re.compile(r"^-?0(\.0*)? [A-Za-zµ_]+$")
 G_OPS = ["add", "sub", "add_diff", "add_sub", "sub_add"]
 PRED = {"add": "add", "sub": "sub", "add_diff": "adddiff", "add_sub": "addsub", "sub_add": "subadd"}
 
@@ -40,6 +42,11 @@ def known_matcher(v, k):
         # `%Y-%m-%d %I:%M:%S%.f %p`: a text with a non-empty fraction before AM/PM is rejected by datetime()
         return (v.get("op") == "fmt" and v.get("f") == "ymd-12h-z" and v.get("err") == "DateParsingError"
                 and v.get("ns", 0) != 0)
+    if sig.get("kind") == "literal-zero-duration-rejected-by-type-checker":
+        # `t + 0 s`: the literal 0 is dimension-polymorphic, `0 s` is not accepted as a Time next to a DateTime
+        dtext = v.get("dtext") or (v.get("case") or {}).get("dtext") or ""
+        return (v.get("op") in ("add", "sub", "add_diff", "sub_diff", "add_sub", "sub_add")
+                and v.get("err") == "type:IncompatibleTypesInOperator" and ZERO_LITERAL.match(dtext) is not None)
     return False
 
 
